@@ -17,11 +17,13 @@ import (
 
 // A family of named struct types that share field names; the outer type also occurs nested.
 type C16Outer struct {
+	// nested members are declared before, between and after the scalar fields: the rule set that
+	// governs this object is the same for every one of its fields, whatever was visited in between
+	In    C16Inner            `valid:"exist"`
 	Name  string              `valid:"to=1~3|tag_outer_name"`
+	InP   *C16Inner           `valid:"exist"`
 	Age   int                 `valid:"le=5|tag_outer_age"`
 	Code  string              `valid:"int|tag_outer_code"`
-	In    C16Inner            `valid:"exist"`
-	InP   *C16Inner           `valid:"exist"`
 	Ins   []C16Inner          `valid:"exist"`
 	Self  *C16Outer           `valid:"exist"`
 	Other C16Other            `valid:"exist"`
@@ -39,9 +41,9 @@ type C16Bare struct {
 
 type C16Inner struct {
 	Name string    `valid:"to=1~3|tag_inner_name"`
+	Deep *C16Other `valid:"exist"`
 	Age  int       `valid:"le=5|tag_inner_age"`
 	Code string    `valid:"int|tag_inner_code"`
-	Deep *C16Other `valid:"exist"`
 }
 
 type C16Other struct {
